@@ -559,3 +559,17 @@ pr!(probe_y3_reprc_box_payload, {
     assert!(spin(n) == 3);
     std::mem::forget(v);
 });
+
+pub enum ErrN { A(String), B, C(u16), D { x: String, y: String } }
+#[repr(u8)]
+pub enum ErrR { A(String), B, C(u16), D { x: String, y: String } }
+#[inline(never)] fn fn_n(x: bool) -> std::result::Result<u8, ErrN> { if x { Err(ErrN::B) } else { Ok(1) } }
+#[inline(never)] fn fn_r(x: bool) -> std::result::Result<u8, ErrR> { if x { Err(ErrR::B) } else { Ok(1) } }
+#[inline(never)] fn fn_real(x: bool) -> desert_core::Result<u8> { if x { Err(desert_core::Error::InputEndedUnexpectedly) } else { Ok(1) } }
+pr!(probe_z1_err_norepr, { let n = match fn_n(true) { Ok(_) => 7, Err(e) => { std::mem::forget(e); 2 } }; assert!(spin(n) == 2); });
+pr!(probe_z2_err_repr, { let n = match fn_r(true) { Ok(_) => 7, Err(e) => { std::mem::forget(e); 2 } }; assert!(spin(n) == 2); });
+pr!(probe_z3_err_real, { let n = match fn_real(true) { Ok(_) => 7, Err(e) => { std::mem::forget(e); 2 } }; assert!(spin(n) == 2); });
+pr!(probe_z4_err_real_q, {
+    fn inner() -> desert_core::Result<u8> { let v = fn_real(true)?; Ok(v + 1) }
+    let n = match inner() { Ok(_) => 7, Err(e) => { std::mem::forget(e); 2 } }; assert!(spin(n) == 2);
+});
